@@ -1,4 +1,4 @@
-\* MUTANT: setL1Head on the tick path swallows a failed write of the head (log + return nil): a running client with a stale record - must violate RunningImpliesRecorded
+\* MUTANT: a not-found answer of FinalisedHeight inside setL1Head is replaced by LatestHeight - must violate HeadWithinReported
 CONSTANTS
   MaxBlocks = 3
   MaxEvents = 3
@@ -7,18 +7,18 @@ CONSTANTS
   MaxRestarts = 1
   MaxFail = 1
   ChunkSizes = {1, 2, 10}
-  MaxWriteFail = 1
+  MaxWriteFail = 0
   CatchUpWriteErrorFatal = TRUE
-  SwallowWriteError = TRUE
+  SwallowWriteError = FALSE
   AnnounceBeforeWrite = FALSE
   MaxReads = 0
   CachedAccessor = FALSE
   ErrKinds = {"transport", "timeout", "notfound", "cancel"}
-  NotFoundMeansLatest = FALSE
+  NotFoundMeansLatest = TRUE
   FinalityAfterNotices = TRUE
 INIT Init
 NEXT Next
 VIEW view
-INVARIANTS TypeOK StoredFinalisedCanonical ChainSane AnnouncedIsRecorded
-PROPERTIES RunningImpliesRecorded
+INVARIANTS TypeOK ChainSane
+PROPERTIES HeadWithinReported
 CHECK_DEADLOCK FALSE
